@@ -1,0 +1,6 @@
+//go:build !verif
+
+package standard
+
+// verifPoison is a no-op unless built with the verif tag.
+func verifPoison([]byte) {}
